@@ -30,8 +30,8 @@ META = {
             "bare LexicalEnvPtr/InstructionPointer, global slots are pointers or address-free, continuation objects hold "
             "stack[0..=sp]) and NoIofArg, and bp-relative stack reads at or below sp. ROUND 4: gc_unobservable / gc_unobservable_value / gc_unobservable_value_eval state T03.5 WITHOUT Safe: Safe is a theorem (Lemmas/GoodMain.safe_of_good) from GoodI of the INITIAL state, by good_step (run_one_preserves_wf: WFHeap/RootsOk of the erased heap, T03.3, lifted to all 16 opcodes through the erasure commutation of the concrete allocator, Lemmas/GoodAlloc.lean; Plain; NoIofArg and the MOV/MOVIMM code discipline of every lambda object; environment discipline) and good_gc (run_gc_preserves_good). Remaining explicit hypotheses: ExtLaws, ExtGood (unmodelled parameters), CompGood (compiler in prepare_eval), SizeBounded (every reachable heap <= 2^62 cells: the one size hypothesis, a physical fact), StackDiscAlong (frame discipline of the current instruction; follows from WF-stack once the verifier types bp-relative sources and temporaries, not yet connected). Finding of the invariant proof: Plain/WFHeap are NOT preserved by run_one over arbitrary bytecode (a MOV through a Ptr operand can overwrite a symbol cell or load an inline pair into a global; CONS can pop a frame-header cell) - on the model and the real VM alike (hand-assembled program 0 of the concrete-heap-step stream does it: witness corpus/C03/simstep-plain-not-invariant-mov-ptr-glob.txt, two consecutive real states around MOV Ptr(closure) GlobalEnvSlot, simgood ok before / bad plain-globals after, model = real on all 53 steps of that program, `simstep witness`); compiled code never does, which is the code discipline clause of GoodI, evaluated on every lambda object of every real state by the safe-side-conditions stream (hand-assembled code, marked +syn, is exempt from that one clause). The stream now also evaluates acc-value, env-ok and the value-read clauses of StackDisc. The concrete instantiation is tied to "
             "the code by the concrete-heap-step stream, and the per-state clauses of Safe are evaluated on the same real states "
-            "by the safe-side-conditions stream (executable counterparts, all satisfied); model limits found there: an inline Rc payload (the Vector left in "
-            "acc by VPUSH) stored back by CONS is by-value in the model (bucket alias), out-of-range operands panic in Rust "
+            "by the safe-side-conditions stream (executable counterparts, all satisfied); model limits found there: an inline Rc payload "
+            "stored back by CONS is by-value in the model (bucket alias; produced only by VPUSH before fix 43d0413, empty since), out-of-range operands panic in Rust "
             "and take a default in the total HeapOps signature. Output (display/write) is not part of the machine model. "
             "Beyond those theorems the first sentence is "
             "carried by (a) the GC-side lemmas it needs (T03.2 run_gc preserves content/allocation/symbol "
@@ -55,6 +55,31 @@ THEOREMS = ["Marwood.Proofs.C03." + t for t in ['mark_computes_reachable', 'mark
 import procinv_util as _pv
 THEOREMS = THEOREMS + [t for t in _pv.COMMON_THEOREMS if t not in THEOREMS] + _pv.FAILING_EXT + ['Marwood.Proofs.C03.gc_unobservable_closed', 'Marwood.Proofs.C03.gc_unobservable_value_closed', 'Marwood.Proofs.C03.run_one_preserves_vmOkP', 'Marwood.Proofs.C03.run_gc_preserves_vmOkP']
 META["note"] = META["note"] + _pv.NOTE + ' C03: gc_unobservable_closed / gc_unobservable_value_closed (T03.5 from VmOk and PInv of the initial state), run_one_preserves_vmOkP / run_gc_preserves_vmOkP (no side condition on the callee).'
+
+# VPUSH fix 43d0413 (defect C03-vpush-inline-vector-not-rooted)
+THEOREMS = THEOREMS + ['Marwood.Proofs.C03.vpush_acc_is_pointer', 'Marwood.Proofs.C03.vpush_acc_is_pointer_vmOk',
+                       'Marwood.Proofs.C03.vpush_acc_is_popped_cell', 'Marwood.Proofs.C03.vpush_acc_inline_pinned',
+                       'Marwood.Lemmas.Good.VpushWitness.extPush_law']
+META["note"] = META["note"] + (
+    " VPUSH (fix 43d0413, known_findings C03-vpush-inline-vector-not-rooted): the defect - VPUSH left the DEREFERENCED "
+    "vector in %acc, MOV stored that inline Vector(Rc) in a global slot, run_gc marks global slots only when they are "
+    "pointers, so the elements of (define v `#(,(list 1 2))) were reclaimed - was invisible to every theorem above: the "
+    "by-value heap model renders a dereferenced vector as the address-free atom .opaque \"v\" (no elements), which the "
+    "invariant Plain accepts as a value, and no generator kept the VALUE of a quasiquoted vector with unquoted allocated "
+    "elements in a global across collections. Now: the model arm is acc := popped cell (concrete-heap-step replays it: "
+    "bucket alias empty); vpush_acc_is_popped_cell (closed, no hypothesis: %acc after VPUSH is the cell that was on "
+    "top of the live stack); vpush_acc_is_pointer / _vmOk (from GoodI resp. VmOk, the executable discipline "
+    "noInlineVecB of Vm/InlineCheck.lean on the state BEFORE the step - no dereferenced vector in %acc, a stack slot, a "
+    "global slot or a heap cell - and the law VecPushLaw of the unmodelled push 'succeeds only on a vector': %acc is "
+    "Ptr p, p is allocated and holds a vector cell, not an inline container); vpush_acc_inline_pinned (the old arm "
+    "stepVpushPinned on a four-cell heap leaves .opaque \"v\" in %acc and fails the discipline, the new arm keeps Ptr 1). "
+    "noInlineVecB is NOT proved invariant (it would need a law of that shape for the 139 unmodelled builtins); it is "
+    "carried by the safe-side-conditions stream, clause inline-vector, evaluated on every real state (unrepaired code: "
+    "bad inline-vector on every state after a VPUSH). Generators: template 21 of gc_programs.rs (value of a quasiquoted "
+    "vector with unquoted lists / strings / closures / nested quasi-vectors kept in a global, a closure variable, a pair, "
+    "returned from a procedure, read back after churn; the leading template of the schedule-exploration shards is offset "
+    "by the seed so that a quick run leads with every template), the feature-session prefix of simstep, corpus/C03/"
+    "vpush-inline-vector-not-rooted.scm and corpus/C01/fixed-quasiquoted-vector-value-kept.scm.")
 
 def simstep_info(req):
     """`simstep i:<opcode>:<kind>:<core|ext|alias>:<scr|lin>:<inline-rc> …` -> dict"""
